@@ -35,9 +35,84 @@ def model_eval(exprs, imports=IMPORTS, defs="", tag="lit", shard=300):
     return [nums(o) for o in vlib.coq_eval(imports, defs, exprs, tag=tag, shard=shard)]
 
 
+# ------------------------------------------------------------------ the extracted model (volume path)
+
+def build_driver():
+    import os
+    ok, log = vlib.coq_build(["Lit/Extract.vo"])
+    if not ok:
+        raise RuntimeError("extraction failed: " + log[-2000:])
+    ex = os.path.join(vlib.VERIF, "extract")
+    return vlib.build_ocaml("lit", [os.path.join(ex, "lit_model.mli"), os.path.join(ex, "lit_model.ml"),
+                                    os.path.join(ex, "lit_driver.ml")], "hymodel_lit")
+
+
+def arg(s):
+    """one protocol argument: str / bytes / list of ints / bool"""
+    if isinstance(s, bool):
+        return "1" if s else "0"
+    if isinstance(s, (bytes, bytearray)):
+        return ",".join(str(b) for b in s)
+    if isinstance(s, str):
+        return ",".join(str(ord(c)) for c in s)
+    return ",".join(str(n) for n in s)
+
+
+def run_driver(binary, lines, jobs=None):
+    """lines: list of (cmd, arg, ...) already rendered with arg(); returns list of int lists.
+    Split over several driver processes."""
+    import subprocess
+    if not lines:
+        return []
+    jobs = jobs or min(vlib.NPROC, max(1, len(lines) // 2000))
+    chunks = [lines[i::jobs] for i in range(jobs)]
+    procs = []
+    for ch in chunks:
+        p = subprocess.Popen([binary], stdin=subprocess.PIPE, stdout=subprocess.PIPE, stderr=subprocess.PIPE, text=True)
+        procs.append((p, "".join("\t".join(l) + "\n" for l in ch)))
+    import threading
+    outs = [None] * jobs
+
+    def feed(i):
+        p, data = procs[i]
+        o, e = p.communicate(data)
+        if p.returncode != 0:
+            outs[i] = RuntimeError("model driver failed: " + e[-1000:])
+        else:
+            outs[i] = o.split("\n")[:-1]
+    ths = [threading.Thread(target=feed, args=(i,)) for i in range(jobs)]
+    for t in ths:
+        t.start()
+    for t in ths:
+        t.join()
+    res = [None] * len(lines)
+    for i in range(jobs):
+        if isinstance(outs[i], Exception):
+            raise outs[i]
+        if len(outs[i]) != len(chunks[i]):
+            raise RuntimeError("model driver: %d results for %d inputs" % (len(outs[i]), len(chunks[i])))
+        for k, l in enumerate(outs[i]):
+            res[i + k * jobs] = [int(x) for x in l.split(",")] if l else []
+    return res
+
+
+def name_table_arg(texts):
+    """protocol form of the name table for the given texts"""
+    names = set()
+    for t in texts:
+        for cand in (t, bsr(t)):
+            names.update(NAME_RX.findall(cand))
+    ents = []
+    for n in sorted(names):
+        cp = lookup_name(n)
+        if cp is not None:
+            ents.append("%s:%d" % (arg(n), cp))
+    return ";".join(ents)
+
+
 # ------------------------------------------------------------------ the interpreter's \N{...} table
 
-NAME_RX = re.compile(r"N\{([^}]*)\}")
+NAME_RX = re.compile(r"(?=N\{([^}]*)\})")
 
 
 def lookup_name(name):
